@@ -219,15 +219,24 @@ def extract_fn(repo, default_file, f):
         if lp.get('decreases'): txt += '        decreases ' + lp['decreases'] + '\n'
         inserts.append((lbo - bo, txt + '    '))
         if lp.get('body_end'): inserts.append((lbc - bo, '    proof {\n' + lp['body_end'].rstrip() + '\n        }\n    '))
-        if lp.get('body_start'): inserts.append((lbo - bo + 1, '\n        proof {\n' + lp['body_start'].rstrip() + '\n        }'))
-    if f.get('entry'): inserts.append((1, '\n    proof {\n' + f['entry'].rstrip() + '\n    }'))
+        if lp.get('body_start') or lp.get('body_start_ghost'):
+            inserts.append((lbo - bo + 1, ('\n        ' + lp['body_start_ghost'].rstrip() if lp.get('body_start_ghost') else '') +
+                            ('\n        proof {\n' + lp['body_start'].rstrip() + '\n        }' if lp.get('body_start') else '')))
+    if f.get('entry') or f.get('entry_ghost'):
+        inserts.append((1, ('\n    ' + f['entry_ghost'].rstrip() if f.get('entry_ghost') else '') + ('\n    proof {\n' + f['entry'].rstrip() + '\n    }' if f.get('entry') else '')))
     if f.get('before_tail'):
-        depth = 0; last = None
+        # start of the tail expression = just after the last statement at depth 1: the last `;` at depth 1
+        # or the closing brace of the last loop at depth 1, whichever comes later
+        depth = 0; last = None; depth_at = {}
         for k, ch in enumerate(cbody):
             if ch == '{': depth += 1
             elif ch == '}': depth -= 1
             elif ch == ';' and depth == 1: last = k
-        inserts.append(((last + 1) if last is not None else 1, '\n        proof {\n' + f['before_tail'].rstrip() + '\n        }'))
+            depth_at[k] = depth
+        pos = (last + 1) if last is not None else 1
+        for kwi, lbo, lbc in lps:
+            if depth_at.get(kwi - bo) == 1 and (lbc - bo + 1) > pos: pos = lbc - bo + 1
+        inserts.append((pos, '\n        proof {\n' + f['before_tail'].rstrip() + '\n        }'))
     if f.get('at_end'):
         # only for functions without a tail expression: ghost block just before the closing brace
         inserts.append((len(body) - 1, '    proof {\n' + f['at_end'].rstrip() + '\n    }\n'))
